@@ -269,3 +269,66 @@ def run_addr(chk, rng, ncases, grounds=(None, None, 'ideal')):
             chk.tie_broken('correspondence', 'addr', 'case %d (%s): %s' % (r['id'], r['spec']['family'], '; '.join(bad[:2])))
     chk.stages['addr'] = dict(cases=len(cases), real_ok=len(good), real_errors=len(errs), compared=len(res), requests=nreq, disagreements=nbad)
     return good, errs
+
+# ------------------------------------------------------------------ zmat
+ZHEADER = HEADER.replace('Model.Topology Corr.TopoDriver', 'Gen.Extracted Model.Topology Model.Kernel Model.ZMatrix Corr.TopoDriver Corr.ZDriver')
+
+def run_zmat(chk, rng, ncases, grounds=(None, None, 'ideal'), cases=None, tol=1e-9, maxp=26):
+    import gen as _g
+    if cases is None:
+        cases = []
+        for i in range(ncases):
+            g = rng.choice(grounds)
+            if rng.random() < 0.35:
+                spec = _g.gen_topology(rng, ground=g, perturb=False)
+            else:
+                spec = _g.gen_antenna(rng, ground=g)
+            cases.append(dict(id=i, seed=rng.randrange(10 ** 9), spec=spec))
+    good, errs = _run_generic(chk, 'topo.zmat', cases, 'zmat')
+    good = [r for r in good if 0 < len(r['obs']['pulses']) <= maxp]
+    if not all(vo_ok(f) for f in ('Corr/ZDriver.v', 'Model/ZMatrix.v', 'Model/Kernel.v', 'Model/Topology.v', 'Gen/Tables.v')):
+        chk.tie_broken('correspondence', 'zmat', 'model (Model/Kernel.v, Model/ZMatrix.v) does not compile')
+        return good, errs
+    global HEADER
+    def mk(r):
+        o = r['obs']
+        _ctr[0] += 1
+        nm = 'objs_%d' % _ctr[0]
+        radii = coq_list([F(g['r']) for g in o['geos']])
+        return 'Definition %s := %s.\nEval vm_compute in (z_case %s %s %s %s %s).' % (
+            nm, coq_objs(o), F(o['f']), F(o['tol']), 'true' if o['ground'] else 'false', nm, radii)
+    saved = HEADER
+    HEADER = ZHEADER
+    try:
+        res = _eval_groups(chk, 'zmat', good, mk)
+    finally:
+        HEADER = saved
+    nbad = nent = 0
+    worst = 0.0
+    for r in good:
+        if r['id'] not in res:
+            continue
+        o = r['obs']
+        v = parse_floats(res[r['id']][0][0])
+        n = len(o['pulses'])
+        if len(v) != 2 * n * n:
+            chk.tie_broken('correspondence', 'zmat', 'case %d: model returned %d numbers for a %dx%d matrix' % (r['id'], len(v), n, n)); nbad += 1; continue
+        Z = [[complex(float.fromhex(a), float.fromhex(b)) for a, b in row] for row in o['Z']]
+        zmax = max(abs(z) for row in Z for z in row)
+        bad = []
+        for i in range(n):
+            for j in range(n):
+                nent += 1
+                zm = complex(v[2 * (i * n + j)], v[2 * (i * n + j) + 1])
+                e = abs(zm - Z[i][j]) / zmax
+                worst = max(worst, e)
+                if not e <= tol:
+                    bad.append('Z[%d][%d]: code %r model %r' % (i, j, Z[i][j], zm))
+        if bad:
+            nbad += 1
+            chk.notes.setdefault('failing_specs', []).append(r['spec'])
+            chk.tie_broken('correspondence', 'zmat', 'case %d (%s, %s, %d pulses): %d entries differ, e.g. %s' % (
+                r['id'], r['spec']['family'], 'ground' if o['ground'] else 'free', n, len(bad), bad[0]))
+    chk.stages['zmat'] = dict(cases=len(cases), real_ok=len(good), real_errors=len(errs), compared=len(res), entries=nent,
+                              disagreements=nbad, worst_rel_to_max=worst)
+    return good, errs
